@@ -44,12 +44,39 @@ func oracle(c Case) error {
 	})
 }
 
+// guard hands a caller's buffer over as callers often hold it: a window of a larger array. Whatever the callee writes -
+// inside the window or into the spare capacity behind it - shows up in intact().
+type guard struct{ back, orig []byte }
+
+func guarded(b []byte) ([]byte, *guard) {
+	g := &guard{back: make([]byte, len(b)+48), orig: b}
+	copy(g.back, b)
+	for i := len(b); i < len(g.back); i++ {
+		g.back[i] = 0xa5
+	}
+	return g.back[:len(b)], g
+}
+
+func (g *guard) intact() bool {
+	if !bytes.Equal(g.back[:len(g.orig)], g.orig) {
+		return false
+	}
+	for _, x := range g.back[len(g.orig):] {
+		if x != 0xa5 {
+			return false
+		}
+	}
+	return true
+}
+
 func oracleRaw(c Case) error {
-	in, key, iv := append([]byte{}, c.Data...), append([]byte{}, c.Key...), append([]byte{}, c.IV...)
+	in, gIn := guarded(c.Data)
+	key, gKey := guarded(c.Key)
+	iv, gIV := guarded(c.IV)
 	out := make([]byte, len(in))
 	errE := ige.VerifIGEEncrypt(in, out, key, iv)
-	if !bytes.Equal(in, c.Data) || !bytes.Equal(key, c.Key) || !bytes.Equal(iv, c.IV) {
-		return errors.New("encrypt modified a caller buffer (input, key or iv)")
+	if !gIn.intact() || !gKey.intact() || !gIV.intact() {
+		return errors.New("encrypt modified a caller buffer (input, key or iv, or the memory behind it)")
 	}
 	valid := len(in) > 0 && len(in)%16 == 0
 	if !valid {
@@ -60,7 +87,7 @@ func oracleRaw(c Case) error {
 		if errD := ige.VerifIGEDecrypt(in, out2, key, iv); errD == nil {
 			return fmt.Errorf("decrypt accepted input of length %d", len(in))
 		}
-		if !bytes.Equal(in, c.Data) {
+		if !gIn.intact() {
 			return errors.New("decrypt modified its input on the refusal path")
 		}
 		return nil
@@ -72,12 +99,12 @@ func oracleRaw(c Case) error {
 	if !bytes.Equal(out, want) {
 		return fmt.Errorf("ciphertext differs from the IGE definition at block %d", firstDiff(out, want)/16)
 	}
-	ct := append([]byte{}, out...)
+	ct, gCt := guarded(out)
 	back := make([]byte, len(in))
 	if err := ige.VerifIGEDecrypt(ct, back, key, iv); err != nil {
 		return fmt.Errorf("decrypt refused a valid ciphertext: %v", err)
 	}
-	if !bytes.Equal(ct, out) || !bytes.Equal(key, c.Key) || !bytes.Equal(iv, c.IV) {
+	if !gCt.intact() || !gKey.intact() || !gIV.intact() {
 		return errors.New("decrypt modified a caller buffer")
 	}
 	if !bytes.Equal(back, c.Data) {
@@ -106,13 +133,14 @@ func firstDiff(a, b []byte) int {
 
 // message-level wrapper: Encrypt is the client->server direction (x=0), Decrypt the server->client one (x=8).
 func oracleMsg(c Case) error {
-	msg, key := append([]byte{}, c.Data...), append([]byte{}, c.Key...)
+	msg, gMsg := guarded(c.Data)
+	key, gKey := guarded(c.Key)
 	ct, err := ige.Encrypt(msg, key)
 	if err != nil {
 		return fmt.Errorf("Encrypt: %v", err)
 	}
-	if !bytes.Equal(msg, c.Data) || !bytes.Equal(key, c.Key) {
-		return errors.New("Encrypt modified a caller buffer")
+	if !gMsg.intact() || !gKey.intact() {
+		return errors.New("Encrypt modified a caller buffer (the message, the key, or the memory behind them)")
 	}
 	wantLen := (len(msg) + 15) / 16 * 16
 	if len(ct) != wantLen {
@@ -121,6 +149,9 @@ func oracleMsg(c Case) error {
 	msgKey := ref.SHA1(c.Data)[4:20]
 	if got := ige.MessageKey(msg); !bytes.Equal(got, msgKey) {
 		return errors.New("MessageKey != SHA1(msg)[4:20]")
+	}
+	if !gMsg.intact() {
+		return errors.New("MessageKey modified its input")
 	}
 	k, iv := ref.KDF1(c.Key, msgKey, 0)
 	pt, err := ref.IGEDecrypt(k, iv, ct)
@@ -133,13 +164,14 @@ func oracleMsg(c Case) error {
 	// server -> client
 	padded := append(append([]byte{}, c.Data...), c.Pad[:wantLen-len(msg)]...)
 	k8, iv8 := ref.KDF1(c.Key, msgKey, 8)
-	sealed, _ := ref.IGEEncrypt(k8, iv8, padded)
-	sealedCopy := append([]byte{}, sealed...)
-	got, err := ige.Decrypt(sealed, key, append([]byte{}, msgKey...))
+	sealedRef, _ := ref.IGEEncrypt(k8, iv8, padded)
+	sealed, gSealed := guarded(sealedRef)
+	mk, gMK := guarded(msgKey)
+	got, err := ige.Decrypt(sealed, key, mk)
 	if err != nil {
 		return fmt.Errorf("Decrypt: %v", err)
 	}
-	if !bytes.Equal(sealed, sealedCopy) || !bytes.Equal(key, c.Key) {
+	if !gSealed.intact() || !gKey.intact() || !gMK.intact() {
 		return errors.New("Decrypt modified a caller buffer")
 	}
 	if !bytes.Equal(got, padded) {
@@ -150,13 +182,13 @@ func oracleMsg(c Case) error {
 
 func oracleWrap(c Case) error {
 	nn, sn := new(big.Int).SetBytes(c.NN), new(big.Int).SetBytes(c.SN)
-	payload := append([]byte{}, c.Data...)
+	payload, gPayload := guarded(c.Data)
 	rk, riv := ref.TempKeys(c.NN, c.SN)
 
 	// (a) what the client produces must be readable by a conformant peer
 	blob := ige.EncryptMessageWithTempKeys(payload, nn, sn)
-	if !bytes.Equal(payload, c.Data) {
-		return errors.New("EncryptMessageWithTempKeys modified its input")
+	if !gPayload.intact() {
+		return errors.New("EncryptMessageWithTempKeys modified its input (or the memory behind it)")
 	}
 	if len(blob) == 0 || len(blob)%16 != 0 {
 		return fmt.Errorf("client blob length %d is not a positive multiple of 16", len(blob))
@@ -170,8 +202,12 @@ func oracleWrap(c Case) error {
 		return errors.New("a conformant peer (fixed-width nonces) does not find SHA1(payload)|payload in the client's blob")
 	}
 	// (b) the client recovers its own blob
-	if got := ige.DecryptMessageWithTempKeys(blob, nn, sn); !bytes.Equal(got, c.Data) {
+	blobG, gBlob := guarded(blob)
+	if got := ige.DecryptMessageWithTempKeys(blobG, nn, sn); !bytes.Equal(got, c.Data) {
 		return fmt.Errorf("client does not recover its own payload (got %d bytes, want %d)", len(got), len(c.Data))
+	}
+	if !gBlob.intact() {
+		return errors.New("DecryptMessageWithTempKeys modified its input")
 	}
 	// (c) the client recovers what a conformant peer produced: SHA1(m)|m|minimal 0..15 padding bytes
 	need := (16 - len(want)%16) % 16
